@@ -66,3 +66,39 @@ LEVEL_TEXT.update({
     'C09': 'Gate theorem (iff) for all version values and its embedding in the session theorem; VERSION regenerated from source; tied to the real code on all 256 values x on/off x both connections x positions in histories.',
 })
 for k in ['C05','C06','C07','C09']: NOT_APPLICABLE.pop(k, None)
+
+WIRE_MODELLED = ['binrw-derived code is modelled, not verified: the layout DSL semantics (field order, little-endian integers, pad = zeros / seek, repr enums reject unknown discriminants, from_bits_truncate, calc/count, until_eof) is validated for all 73 kinds by correspondence (real Codec vs extracted model) on structured frames',
+                 'the 72 declarative layouts, Packet magic numbers, enum/flag tables, PlcAllowedCarsSet tables and flag masks are REGENERATED from the Rust declarations on every run (tools/gen_packets.py, fail-closed grammar)',
+                 'hand-written BinRead/BinWrite impls (Vehicle, Track, RaceLaps, Fuel, SmallType, CimMode, game version, ConInfo nibbles, Mso) are hand-modelled in Wire/Customs.v / Wire/Packet.v and tied by correspondence only',
+                 'text fields are modelled at the byte level; the codepage layer (String <-> bytes) is C10; generated text is codepage-stable ASCII']
+PROPS.update({
+    'C01': dict(gens=['vehicle', 'track', 'consts', 'packets'], coq_targets=['Props/C01.vo'], coqchk_modules=['Props.C01'], group='wire', harness='c01', axioms_allowed=[],
+        proved=['for every kind in the generated table, both modes, every in-domain value: decode (encode p ++ rest) = p with exactly the frame consumed (generic layout theorem T2, proved once by induction over layouts, + customs on explicit domains + Codec framing)',
+                'a frame the encoder produced from an in-domain packet decodes to a packet that re-encodes to the identical bytes',
+                'per-custom round trips on explicit decidable domains (race laps, fuel, Small incl. all 2^32 wire values by arithmetic, CIM, game version text, nibbles, vehicle, track)'],
+        modelled=WIRE_MODELLED, assumptions=['Mso is covered by correspondence only (its round trip is not proved: name/message re-splitting depends on the codepage layer)',
+                                            'in-domain = pindom (decidable): integers in range, enumerants listed, flags within the mask, bool 0/1, char < 256, durations multiples of the scale within range, NUL-free text no longer than the field, element count fits the count byte and the cap']),
+    'C03': dict(gens=['vehicle', 'track', 'consts', 'packets'], coq_targets=['Props/C03.vo'], coqchk_modules=['Props.C03'], group='wire', harness='c03', axioms_allowed=[],
+        proved=['every successful encoding, any value, both modes: complete frame for the mode, length multiple of 4 (generic length theorem T1 + decidable per-layout size conditions checked on all 73 generated layouts), exact size byte, type byte = kind',
+                'too large for the mode => refused (Panic), never emitted; encode_length Ok n implies n*mul = len, n < 256',
+                'in-domain packets: own output decodes completely to the same packet; a packet decoded from an encoder-produced frame never aborts the encoder'],
+        modelled=WIRE_MODELLED, assumptions=['count byte = number of elements and decoded-from-arbitrary-frames never aborts are checked on the implementation (every count 0..255, generated dirty frames), proved only for in-domain values (c03_decoded_never_aborts_partial)']),
+    'C04': dict(gens=['vehicle', 'track', 'consts', 'packets'], coq_targets=['Props/C04.vo'], coqchk_modules=['Props.C04'], group='wire', harness='c04', axioms_allowed=[],
+        proved=['for every byte buffer and both modes the decoder never panics (generic totality theorem T6 over all generated layouts + customs + Mso + framing)',
+                'outcome classification: need-more / exactly the announced frame removed (4 <= n <= limit, n <= buffer) / framing error only for impossible lengths',
+                'bytes after the announced frame neither influence the result nor are consumed; what is removed is a well-formed frame'],
+        modelled=WIRE_MODELLED),
+    'C11': dict(gens=['vehicle', 'track', 'consts', 'packets'], coq_targets=['Props/C11.vo'], coqchk_modules=['Props.C11'], group='wire', harness='c11', axioms_allowed=[],
+        proved=['fixed-width writer: exactly N bytes = text truncated to N then NUL padding (all N, all byte strings)',
+                'aligned writer: length = min(max, round_up(len, align)), multiple of the alignment, never above the maximum',
+                'decoding stops at the first NUL; strip idempotent; written text shorter than the width is read back',
+                'terminating NUL: proved outside the known class (text shorter than the width / length not a multiple of 4), refuted inside it with machine-checked witnesses (c11_fixed_terminator_refuted, c11_aligned_terminator_refuted)'],
+        modelled=WIRE_MODELLED + ['which writer each text field uses, with which width, is regenerated from the source (AText n / TTextEof max align in Gen/Packets.v)']),
+})
+LEVEL_TEXT.update({
+    'C01': 'One generic round-trip theorem proved by induction over a deep-embedded layout DSL, instantiated for all 73 kinds by layouts REGENERATED from the Rust declarations on every run, lifted through the Packet dispatch and the Codec framing model; unbounded in field values, element counts and text. The DSL semantics and the hand models are tied to the real Codec by differential runs on structured frames of every kind.',
+    'C03': 'Generic length theorem + decidable per-layout size conditions (vm_compute over the 73 regenerated layouts) give: every successful encoding in either mode is one well-formed frame with exact size/type bytes and a length that is a multiple of 4; oversize is refused. Tied to the real encoder on every element count 0..255 and every text length 0..2N+2.',
+    'C04': 'Totality theorem over all byte buffers (generic T6 + framing case analysis): never panics, removes exactly the announced frame, reads nothing beyond it. Tied to the real decoder on all 65536 headers x 2 modes, every enum byte value in every enum position, mutations of valid frames of every kind.',
+    'C11': 'Theorems about the two text writers and the NUL-stripping reader for all widths, alignments and byte strings; the terminator clause is proved outside / refuted inside an explicit known class. Tied to the real encoder on every text field of every kind at lengths 0..2N incl. multi-codepage text.',
+})
+for k in ['C01','C03','C04','C11']: NOT_APPLICABLE.pop(k, None)
